@@ -29,6 +29,13 @@ PATTERNS = {
     # back-references (same meaning in Python re and ECMA 262)
     "^(a|b)\\1$": (["aa", "bb"], ["", "ab", "a", "aab", "ba"]),
     "(.)\\1": (["aa", "xooy", "11", "abb"], ["", "a", "ab", "aba", "abc"]),
+    # character sequences that LOOK like ECMA named groups / back-references but are not (an escaped parenthesis,
+    # a character class, an escaped backslash): a translator between regex dialects must leave them alone
+    "^\\(?<\\d+>\\)?$": (["<12>", "(<12>)", "(<1>"], ["", "12", "P<12>", "<>", "(P<12>)"]),
+    "[(?<a>]x": (["(x", "?x", "<x", "ax", ">x"], ["", "x", "Px", "bx"]),
+    "\\\\k<a>": (["\\k<a>", "x\\k<a>y"], ["", "k<a>", "a", "\\k"]),
+    # a word class met by letters outside ASCII (keys as well as values)
+    "^t\\w*$": (["t", "temp", "temp\u00e9rature", "t\u0663"], ["", "x", "t-", "at"]),
 }
 
 GOOD_UUID = [
@@ -54,6 +61,8 @@ SCALARS = [
     "", "a", "b", "ab", "abc", "foo", "bar", "é", "x_a", "1", "A",
     # strings spelled like Python constants / markers (a literal compared by its text looks "unset")
     "None", "True", "NotPassed", "[]",
+    # text holding tokens a repr post-processor might take for Python (never the whole string)
+    "lower, upper (0, inf)", "x, -inf, y", "no unit (nan)", "a _Property b", "Element() ...",
 ]
 
 
@@ -89,10 +98,14 @@ def random_value(rng, depth=2, keys=None):
         return random_string(rng)
     if roll < 0.78:
         return [random_value(rng, depth - 1, keys) for _ in range(rng.randint(0, 4))]
-    return {
+    out = {
         rng.choice(keys): random_value(rng, depth - 1, keys)
         for _ in range(rng.randint(0, 4))
     }
+    if rng.random() < 0.04:
+        # members spelled like the labeller's annotations (only `_x_autotitle` itself is one: finding F43)
+        out[rng.choice(["_x_scale", "_x_", "_x_autotitles", "x_autotitle"])] = random_value(rng, 0)
+    return out
 
 
 def lookalike(rng, value, depth=0):
@@ -650,6 +663,34 @@ def mutate(rng, value, keys=None):
     return random_value(rng, 1)
 
 
+def permuted_objects(rng, literal):
+    """For a literal holding an object with 2+ members: the same object written in another member order (equal
+    in JSON), and that order with two values exchanged (not equal) - what a comparison pairing `.values()` by
+    position gets wrong in both directions."""
+    out = []
+
+    def visit(node, rebuild):
+        if isinstance(node, dict):
+            if len(node) >= 2:
+                keys = list(node)
+                turned = keys[1:] + keys[:1] if rng.random() < 0.5 else keys[::-1]
+                out.append(rebuild({key: copy.deepcopy(node[key]) for key in turned}))
+                first, second = turned[0], turned[1]
+                if not refmodel.json_eq(node[first], node[second]):
+                    swapped = {key: copy.deepcopy(node[key]) for key in turned}
+                    swapped[first], swapped[second] = swapped[second], swapped[first]
+                    out.append(rebuild(swapped))
+            for key, val in node.items():
+                visit(val, lambda new, key=key, node=node: rebuild({**copy.deepcopy(node), key: new}))
+        elif isinstance(node, list):
+            for idx, val in enumerate(node[:4]):
+                visit(val, lambda new, idx=idx, node=node: rebuild(copy.deepcopy(node[:idx]) + [new] +
+                                                                    copy.deepcopy(node[idx + 1:])))
+
+    visit(literal, lambda new: new)
+    return out[:6]
+
+
 def batch_for_schema(rng, schema, root=None, count=8, lookalikes=True, boundaries=True):
     """Mixed batch: valid-by-construction attempts, their one-point mutants,
     lookalike swaps and unconstrained values."""
@@ -675,6 +716,7 @@ def batch_for_schema(rng, schema, root=None, count=8, lookalikes=True, boundarie
         for literal in ([schema["const"]] if "const" in schema else []) + list(schema.get("enum") or [])[:2]:
             if isinstance(literal, (list, dict)) and literal:
                 out.append(deep_lookalike(copy.deepcopy(literal)))
+                out += permuted_objects(rng, literal)
     if isinstance(schema, dict) and isinstance(schema.get("dependencies"), dict):
         # dependency probes: an otherwise valid object plus the triggering member (decisive for a dependency
         # whose value is `false`, an empty list, or a schema)
@@ -687,6 +729,22 @@ def batch_for_schema(rng, schema, root=None, count=8, lookalikes=True, boundarie
                 except Exception:  # pylint: disable=broad-except
                     base[key] = 1
             out.append(base)
+    if isinstance(schema, dict) and isinstance(schema.get("properties"), dict):
+        # a member whose name is canonically equivalent to a declared one, but not the same string
+        import unicodedata  # pylint: disable=import-outside-toplevel
+
+        for name in list(schema["properties"])[:6]:
+            if not isinstance(name, str):
+                continue
+            for form in ("NFD", "NFC"):
+                other = unicodedata.normalize(form, name)
+                if other != name:
+                    base = next((copy.deepcopy(seed) for seed in seeds if isinstance(seed, dict)), {})
+                    base[other] = rng.choice([1, "x", None])
+                    out.append(base)
+                    twin = dict(base)
+                    twin.pop(name, None)
+                    out.append(twin)
     if boundaries:
         try:
             out += boundary_probes(rng, schema, root)
